@@ -3,23 +3,34 @@
    left behind.  The skeletons themselves are GENERATED (Gen/Skel.v). *)
 From PW Require Export Child.Skel.
 
-Inductive exc := EOwn | EBaseOwn | EWTE.     (* target's Exception / target's BaseException / WorkerTerminatedError *)
+Inductive exc := EOwn | EBaseOwn | EWTE | EOther.
+(* target's Exception / target's BaseException / WorkerTerminatedError / an error of the run loop itself (writing to a closed pipe) *)
 
 Definition catches1 (c : xcls) (e : exc) : bool :=
   match c, e with
   | XBaseException, _ => true
-  | XException, (EOwn | EWTE) => true
+  | XException, (EOwn | EWTE | EOther) => true
   | XException, EBaseOwn => false
+  | XConnClosed, _ => false            (* ConnectionClosedError: none of the modelled exceptions *)
   end.
 Definition catches (cs : list xcls) (e : exc) : bool := existsb (fun c => catches1 c e) cs.
 
 (* what the user's target does when left alone *)
 Inductive target := TReturn | TRaise | TRaiseBase | TLoop.   (* TLoop: interruptible Python loop that lets exceptions propagate *)
 
-Inductive action := AWTE | AKill | AKillMidSend.
+(* AWTE: an asynchronous WorkerTerminatedError raised at this boundary whatever the child's state;
+   ATerm: a graceful terminate REQUEST reaching the child at this boundary - process and remote children are interrupted
+   by their own control thread, so the request only turns into an exception while that thread is still there
+   (once the child has released and joined it, nobody is left to raise anything: the request finds a child on its way out) *)
+Inductive action := AWTE | AKill | AKillMidSend | ATerm.
 
-(* messages on the process worker's result pipe (_comms) *)
-Inductive cmsg := MInfo | MRes (ok : bool) (e : option exc) | MPartial.
+(* messages on the process worker's result pipe (_comms); for the remote kind also what the backend writes to the
+   data socket: MNone = the value None sent as the result, MRaw = a bare return value (not a pair) sent as the result,
+   MState = the user state, MEnd = a persistent worker's end-of-stream marker *)
+Inductive cmsg := MInfo | MRes (ok : bool) (e : option exc) | MPartial | MNone | MRaw | MState | MEnd.
+
+(* the remote backend's local variable `result` *)
+Inductive rv := RVNone | RVRaw | RVPair (ok : bool) (e : option exc).
 
 Record cs := mkCs {
   step : nat;                        (* dynamic count of statement boundaries passed *)
@@ -33,7 +44,9 @@ Record cs := mkCs {
   ctrl_alive : bool; term_req : bool;
   cur_exc : option exc;              (* `e` bound by the handler *)
   cleanup_ran : bool;
-  persistent_cleanup : option stm    (* body of _cleanup for persistent kinds *)
+  persistent_cleanup : option stm;   (* body of _cleanup for persistent kinds *)
+  rvar : rv;                         (* remote backend: the local variable `result` *)
+  mark : option nat                  (* ghost: the boundary count right after the child announced itself (SendInfo / StartupDone) *)
 }.
 
 Inductive completion := Normal | Raising (e : exc) | Killed | Returned | Hang.
@@ -43,27 +56,40 @@ Definition lookup (p : nat) (l : list (nat * action)) : option action :=
 
 Definition tick (s : cs) : cs :=
   mkCs (S (step s)) (inj s) (result_var s) (comms s) (comms_closed s) (rpipe_end s) (rpipe_closed s) (cleaned s)
-       (ctrl_alive s) (term_req s) (cur_exc s) (cleanup_ran s) (persistent_cleanup s).
+       (ctrl_alive s) (term_req s) (cur_exc s) (cleanup_ran s) (persistent_cleanup s) (rvar s) (mark s).
 
 Definition with_comms (s : cs) (m : cmsg) : cs :=
   mkCs (step s) (inj s) (result_var s) (comms s ++ [m]) (comms_closed s) (rpipe_end s) (rpipe_closed s) (cleaned s)
-       (ctrl_alive s) (term_req s) (cur_exc s) (cleanup_ran s) (persistent_cleanup s).
+       (ctrl_alive s) (term_req s) (cur_exc s) (cleanup_ran s) (persistent_cleanup s) (rvar s) (mark s).
 
 Definition set_result (s : cs) (r : bool * option exc) : cs :=
   mkCs (step s) (inj s) (Some r) (comms s) (comms_closed s) (rpipe_end s) (rpipe_closed s) (cleaned s)
-       (ctrl_alive s) (term_req s) (cur_exc s) (cleanup_ran s) (persistent_cleanup s).
+       (ctrl_alive s) (term_req s) (cur_exc s) (cleanup_ran s) (persistent_cleanup s) (rvar s) (mark s).
 
 Definition set_exc (s : cs) (e : option exc) : cs :=
   mkCs (step s) (inj s) (result_var s) (comms s) (comms_closed s) (rpipe_end s) (rpipe_closed s) (cleaned s)
-       (ctrl_alive s) (term_req s) e (cleanup_ran s) (persistent_cleanup s).
+       (ctrl_alive s) (term_req s) e (cleanup_ran s) (persistent_cleanup s) (rvar s) (mark s).
 
-Definition is_send (e : eff) : bool := match e with SendInfo | SendResOk | SendResErr => true | _ => false end.
+Definition set_rvar (s : cs) (v : rv) : cs :=
+  mkCs (step s) (inj s) (result_var s) (comms s) (comms_closed s) (rpipe_end s) (rpipe_closed s) (cleaned s)
+       (ctrl_alive s) (term_req s) (cur_exc s) (cleanup_ran s) (persistent_cleanup s) v (mark s).
+
+Definition set_mark (s : cs) : cs :=
+  mkCs (step s) (inj s) (result_var s) (comms s) (comms_closed s) (rpipe_end s) (rpipe_closed s) (cleaned s)
+       (ctrl_alive s) (term_req s) (cur_exc s) (cleanup_ran s) (persistent_cleanup s) (rvar s)
+       (match mark s with Some m => Some m | None => Some (step s) end).
+
+Definition is_send (e : eff) : bool :=
+  match e with SendInfo | SendResOk | SendResErr | SockSendVar | SockSendState | PutEndSock => true | _ => false end.
 
 Definition send_msg_of (e : eff) (s : cs) : cmsg :=
   match e with
   | SendInfo => MInfo
   | SendResOk => MRes true None
   | SendResErr => MRes false (cur_exc s)
+  | SockSendVar => match rvar s with RVNone => MNone | RVRaw => MRaw | RVPair ok e => MRes ok e end
+  | SockSendState => MState
+  | PutEndSock => MEnd
   | _ => MInfo
   end.
 
@@ -73,6 +99,20 @@ Definition eval_cnd (c : cnd) (s : cs) : bool :=
   | CCtrlAliveNotTerm => ctrl_alive s && negb (term_req s)
   | CCleaned => cleaned s
   | CHasClose => true
+  | CFalse => false
+  | CTrue => true
+  | CCtrlAlive => ctrl_alive s && negb (term_req s)     (* a control thread that has delivered a terminate is on its way out *)
+  | CVarNone => match rvar s with RVNone => true | _ => false end
+  end.
+
+Inductive land := LWTE | LKill | LKillMid | LNone.
+Definition landing (s : cs) : land :=
+  match lookup (step s) (inj s) with
+  | Some ATerm => if ctrl_alive s then LWTE else LNone
+  | Some AWTE => LWTE
+  | Some AKill => LKill
+  | Some AKillMidSend => LKillMid
+  | None => LNone
   end.
 
 Section Exec.
@@ -83,27 +123,36 @@ Section Exec.
     match e with
     | SetResOk => set_result s (true, None)
     | SetResErr => set_result s (false, cur_exc s)
-    | SendInfo | SendResOk | SendResErr => with_comms s (send_msg_of e s)
+    | SendInfo => set_mark (with_comms s (send_msg_of e s))
+    | StartupDone => set_mark s
+    | SendResOk | SendResErr | SockSendVar | SockSendState => with_comms s (send_msg_of e s)
+    | PutEndSock => let s' := with_comms s MEnd in
+                    mkCs (step s') (inj s') (result_var s') (comms s') (comms_closed s') (S (rpipe_end s')) (rpipe_closed s') (cleaned s')
+                         (ctrl_alive s') (term_req s') (cur_exc s') (cleanup_ran s') (persistent_cleanup s') (rvar s') (mark s')
+    | VarNone => set_rvar s RVNone
+    | VarOk => set_rvar s (RVPair true None)
+    | VarErr => set_rvar s (RVPair false (cur_exc s))
+    | VarErrNone => set_rvar s (RVPair false None)
     | CloseComms => mkCs (step s) (inj s) (result_var s) (comms s) true (rpipe_end s) (rpipe_closed s) (cleaned s)
-                         (ctrl_alive s) (term_req s) (cur_exc s) (cleanup_ran s) (persistent_cleanup s)
+                         (ctrl_alive s) (term_req s) (cur_exc s) (cleanup_ran s) (persistent_cleanup s) (rvar s) (mark s)
     | PutEnd => mkCs (step s) (inj s) (result_var s) (comms s) (comms_closed s) (S (rpipe_end s)) (rpipe_closed s) (cleaned s)
-                     (ctrl_alive s) (term_req s) (cur_exc s) (cleanup_ran s) (persistent_cleanup s)
+                     (ctrl_alive s) (term_req s) (cur_exc s) (cleanup_ran s) (persistent_cleanup s) (rvar s) (mark s)
     | CloseResults => mkCs (step s) (inj s) (result_var s) (comms s) (comms_closed s) (rpipe_end s) true (cleaned s)
-                           (ctrl_alive s) (term_req s) (cur_exc s) (cleanup_ran s) (persistent_cleanup s)
+                           (ctrl_alive s) (term_req s) (cur_exc s) (cleanup_ran s) (persistent_cleanup s) (rvar s) (mark s)
     | SetCleaned => mkCs (step s) (inj s) (result_var s) (comms s) (comms_closed s) (rpipe_end s) (rpipe_closed s) true
-                         (ctrl_alive s) (term_req s) (cur_exc s) (cleanup_ran s) (persistent_cleanup s)
+                         (ctrl_alive s) (term_req s) (cur_exc s) (cleanup_ran s) (persistent_cleanup s) (rvar s) (mark s)
     | StartCtrl => mkCs (step s) (inj s) (result_var s) (comms s) (comms_closed s) (rpipe_end s) (rpipe_closed s) (cleaned s)
-                        true (term_req s) (cur_exc s) (cleanup_ran s) (persistent_cleanup s)
+                        true (term_req s) (cur_exc s) (cleanup_ran s) (persistent_cleanup s) (rvar s) (mark s)
     | JoinCtrl | ReleaseCtrl =>
         mkCs (step s) (inj s) (result_var s) (comms s) (comms_closed s) (rpipe_end s) (rpipe_closed s) (cleaned s)
-             (match e with JoinCtrl => false | _ => ctrl_alive s end) (term_req s) (cur_exc s) (cleanup_ran s) (persistent_cleanup s)
+             (match e with JoinCtrl => false | _ => ctrl_alive s end) (term_req s) (cur_exc s) (cleanup_ran s) (persistent_cleanup s) (rvar s) (mark s)
     | _ => s
     end.
 
   (* an asynchronous WorkerTerminatedError is injected by the control thread, which sets _terminate_req first *)
   Definition note_term (s : cs) : cs :=
     mkCs (step s) (inj s) (result_var s) (comms s) (comms_closed s) (rpipe_end s) (rpipe_closed s) (cleaned s)
-         (ctrl_alive s) true (cur_exc s) (cleanup_ran s) (persistent_cleanup s).
+         (ctrl_alive s) true (cur_exc s) (cleanup_ran s) (persistent_cleanup s) (rvar s) (mark s).
 
   Fixpoint exec (fuel : nat) (p : stm) (s : cs) : completion * cs :=
     match fuel with
@@ -111,12 +160,12 @@ Section Exec.
     | S fuel' =>
       match p with
       | Eff e =>
-          match lookup (step s) (inj s) with
-          | Some AWTE => (Raising EWTE, note_term (tick s))
-          | Some AKill => (Killed, s)
-          | Some AKillMidSend =>
+          match landing s with
+          | LWTE => (Raising EWTE, note_term (tick s))
+          | LKill => (Killed, s)
+          | LKillMid =>
               if is_send e then (Killed, with_comms s MPartial) else (Killed, s)
-          | None =>
+          | LNone =>
               match e with
               | Return => (Returned, tick s)
               | Cleanup =>
@@ -128,24 +177,26 @@ Section Exec.
                       | (c, s2) =>
                           (c, match c with
                               | Normal => mkCs (step s2) (inj s2) (result_var s2) (comms s2) (comms_closed s2) (rpipe_end s2)
-                                               (rpipe_closed s2) (cleaned s2) (ctrl_alive s2) (term_req s2) (cur_exc s2) true (persistent_cleanup s2)
+                                               (rpipe_closed s2) (cleaned s2) (ctrl_alive s2) (term_req s2) (cur_exc s2) true (persistent_cleanup s2) (rvar s2) (mark s2)
                               | _ => s2 end)
                       end
                   | None =>
                       let s1 := tick s in
                       (Normal, mkCs (step s1) (inj s1) (result_var s1) (comms s1) (comms_closed s1) (rpipe_end s1) (rpipe_closed s1)
-                                    (cleaned s1) (ctrl_alive s1) (term_req s1) (cur_exc s1) true (persistent_cleanup s1))
+                                    (cleaned s1) (ctrl_alive s1) (term_req s1) (cur_exc s1) true (persistent_cleanup s1) (rvar s1) (mark s1))
                   end
+              | SendInfo => if comms_closed s then (Raising EOther, tick s)      (* the pipe to the server side was closed already *)
+                            else (Normal, do_eff e (tick s))
               | _ => (Normal, do_eff e (tick s))
               end
           end
       | CallTarget =>
-          match lookup (step s) (inj s) with
-          | Some AWTE => (Raising EWTE, note_term (tick s))       (* lands at the call or inside the target *)
-          | Some (AKill | AKillMidSend) => (Killed, s)
-          | None =>
+          match landing s with
+          | LWTE => (Raising EWTE, note_term (tick s))       (* lands at the call or inside the target *)
+          | (LKill | LKillMid) => (Killed, s)
+          | LNone =>
               match tgt with
-              | TReturn => (Normal, tick s)
+              | TReturn => (Normal, set_rvar (tick s) RVRaw)
               | TRaise => (Raising EOwn, tick s)
               | TRaiseBase => (Raising EBaseOwn, tick s)
               | TLoop => (Hang, s)
@@ -161,17 +212,17 @@ Section Exec.
                          end
              end) l s
       | IfC c a b =>
-          match lookup (step s) (inj s) with
-          | Some AWTE => (Raising EWTE, note_term (tick s))
-          | Some (AKill | AKillMidSend) => (Killed, s)
-          | None => let s1 := tick s in if eval_cnd c s1 then exec fuel' a s1 else exec fuel' b s1
+          match landing s with
+          | LWTE => (Raising EWTE, note_term (tick s))
+          | (LKill | LKillMid) => (Killed, s)
+          | LNone => let s1 := tick s in if eval_cnd c s1 then exec fuel' a s1 else exec fuel' b s1
           end
       | Try body hs fin =>
           (* the `try:` line is itself a statement boundary, not yet protected by the handlers *)
-          match lookup (step s) (inj s) with
-          | Some AWTE => (Raising EWTE, note_term (tick s))
-          | Some (AKill | AKillMidSend) => (Killed, s)
-          | None =>
+          match landing s with
+          | LWTE => (Raising EWTE, note_term (tick s))
+          | (LKill | LKillMid) => (Killed, s)
+          | LNone =>
           let '(c1, s1) := exec fuel' body (tick s) in
           let '(c2, s2) :=
             match c1 with
@@ -179,10 +230,10 @@ Section Exec.
                 match find (fun h => catches (fst h) e) hs with
                 | Some h =>
                     (* the `except ...:` line: a boundary inside the handler, before its first statement *)
-                    match lookup (step s1) (inj s1) with
-                    | Some AWTE => (Raising EWTE, note_term (tick s1))
-                    | Some (AKill | AKillMidSend) => (Killed, s1)
-                    | None => exec fuel' (snd h) (set_exc (tick s1) (Some e))
+                    match landing s1 with
+                    | LWTE => (Raising EWTE, note_term (tick s1))
+                    | (LKill | LKillMid) => (Killed, s1)
+                    | LNone => exec fuel' (snd h) (set_exc (tick s1) (Some e))
                     end
                 | None => (c1, s1)
                 end
@@ -202,10 +253,10 @@ Section Exec.
 End Exec.
 
 (* ---------- kinds, runs, and what the parent observes ---------- *)
-Inductive kind := KThread | KProcess.
+Inductive kind := KThread | KProcess | KRemote.
 
 Definition init_cs (inj_ : list (nat * action)) (pc : option stm) : cs :=
-  mkCs 0 inj_ None [] false 0 false false false false None false pc.
+  mkCs 0 inj_ None [] false 0 false false false false None false pc RVNone None.
 
 Inductive obs :=
 | OOk                      (* has_error False, result = the target's value *)
@@ -222,12 +273,34 @@ Definition decode_process (rebuild : bool) (l : list cmsg) : obs :=
     | [] => last
     | MPartial :: _ => last
     | MRes ok e :: r => if rebuild then go r (Some (MRes ok e)) else last
-    | MInfo :: r => go r last
+    | (MInfo | MNone | MRaw | MState | MEnd) :: r => go r last     (* only MInfo occurs on a process worker's pipe *)
     end in
   match go l None with
   | Some (MRes true _) => OOk
   | Some (MRes false e) => OErr e
   | _ => OErr None
+  end.
+
+(* RemoteWorker._fetch_results (and the tail of PersistentRemoteWorker._fetch_results): the first data message after the
+   stream of partial results is the result; it is followed by the user state.  A result that cannot be received
+   (connection closed, truncated, not rebuildable) is (False, None). *)
+Fixpoint decode_remote (rebuild : bool) (l : list cmsg) : obs :=
+  match l with
+  | [] => OErr None
+  | (MInfo | MEnd) :: r => decode_remote rebuild r
+  | MPartial :: _ => OErr None
+  | MRes ok e :: _ => if rebuild then (if ok then OOk else OErr e) else OErr None
+  | MNone :: _ => OUndef                     (* the parent stores None as the outcome *)
+  | (MRaw | MState) :: _ => ORaises          (* a value that is not an (ok, value) pair: the accessors choke on it *)
+  end.
+
+(* has the parent received the child's final user state (remote kinds: the message after the result) *)
+Fixpoint remote_state_received (rebuild : bool) (l : list cmsg) : bool :=
+  match l with
+  | [] => false
+  | (MInfo | MEnd) :: r => remote_state_received rebuild r
+  | MRes _ _ :: MState :: _ => rebuild
+  | _ => false
   end.
 
 Definition observe (k : kind) (rebuild : bool) (r : completion * cs) : obs :=
@@ -241,5 +314,6 @@ Definition observe (k : kind) (rebuild : bool) (r : completion * cs) : obs :=
                    | None => OErr None      (* ThreadWorker._get_result falls back to (False, None) once the child is dead *)
                    end
       | KProcess => decode_process rebuild (comms (snd r))
+      | KRemote => decode_remote rebuild (comms (snd r))
       end
   end.
